@@ -244,7 +244,11 @@ pub fn check_crash_state(run: &Run, sc: &Scenario, fr: &FaultRun, replay: &Value
                 viol("stitched-restore", "err", out.describe());
                 return false;
             }
-            if !out.errors.is_empty() && orph.is_empty() {
+            // stitching through a band whose BANDHEAD is an empty file (a backup killed while
+            // writing it) reports that band as unreadable: information, not a wrong result
+            let torn_head = raw.bands.values().any(|b| b.head_raw.is_some() && b.head.is_none());
+            let unexpected: Vec<&String> = out.errors.iter().filter(|e| !(torn_head && e.contains("BANDHEAD"))).collect();
+            if !unexpected.is_empty() && orph.is_empty() {
                 viol("stitched-restore", "reported-errors", out.describe());
                 return false;
             }
